@@ -41,7 +41,7 @@ RULE = ('objects: curves/surfaces/volumes, dim 2-3, orders 1..4 (volumes 1..3), 
         'multiplicities up to the order (C^-1 knots included), rational with weights 2^-3..2^3; calls: every multi-index up to total '
         'order p+1 (volumes <= 3), d as int / tuple / list, above as bool / list / tuple (per-direction mixes), tensor True/False, '
         'scalar parameters; parameters: every knot of the domain, span interiors, periodic points periods away, a few points '
-        'outside (generic path); get_derivative_spline for every direction / None / invalid / rational; tangent (each direction and '
+        'outside (generic path); rational volumes with weights varying in every direction and the mixed multi-indices (1,1,0), (1,0,1), (0,1,1), (1,1,1) as tuple and list (must be refused or be the true mixed partial); get_derivative_spline for every direction / None / invalid / rational; tangent (each direction and '
         'None), Surface.normal (2-D and 3-D), Curve.binormal, Curve.normal.  distinct = distinct protocol lines; non-trivial = '
         'parameters inside the domain.')
 REQUIRED_TAGS = ['class=curve', 'class=surface', 'class=volume', 'rational', 'nonrational', 'd=int', 'd=tup', 'd=lst',
@@ -49,6 +49,7 @@ REQUIRED_TAGS = ['class=curve', 'class=surface', 'class=volume', 'rational', 'no
                  'path=generic', 'path=generic-first-rational', 'path=closed-curve', 'path=closed-surface', 'path=refused',
                  'left@interior-knot', 'periodic-dir', 'kind=dspline', 'dspline-periodic', 'dspline-all', 'kind=tangent',
                  'kind=snormal', 'kind=binormal', 'kind=cnormal', 'outside',
+                 'rational-volume-mixed:tup', 'rational-volume-mixed:lst',
                  'kind=history', 'history:dspline-after-reparam', 'history:dspline-after-reverse', 'history:dspline-after-swap',
                  'history:dspline-after-insert', 'history:dspline-after-raise', 'history:dspline-after-clone',
                  'history:deriv-after-reparam', 'history:eval-after-reverse', 'history:tangent-after-reparam',
@@ -267,7 +268,30 @@ def generate(rng, tier):
             if pd == 1:
                 specs.append(dict(base, kind='binormal', tensor=True))
                 specs.append(dict(base, kind='cnormal', tensor=True))
+    specs.extend(_mixed_rational_volume_specs(rng, tier))
     specs.extend(_history_specs(rng, tier))
+    return specs
+
+
+MIXED_FIRST = [[1, 1, 0], [1, 0, 1], [0, 1, 1], [1, 1, 1]]
+
+
+def _mixed_rational_volume_specs(rng, tier):
+    """Rational volumes (no closed-form override: generic path) with weights varying in every direction, orders >= 2,
+    and the mixed multi-indices whose entries are all <= 1 but whose total order is >= 2, as tuple and as list: the
+    API must refuse them (RuntimeError) or return the true mixed partial of n/W."""
+    specs = []
+    nobj = 2 if tier == 'quick' else 20
+    for k in range(nobj):
+        o = gen.rand_object(rng, pardim=3, rational=True, pmin=2, pmax=3, max_interior=1, periodic_prob=0.2,
+                            max_mult=1)
+        _vary_weights(rng, o)
+        avs = _above_variants(3)
+        for j, idx in enumerate(MIXED_FIRST):
+            for dk in ('tup', 'lst'):
+                s = _deriv_spec(rng, o, idx, dk, avs[(k * 5 + j) % len(avs)], True, npts=2)
+                s['mixed_first'] = True
+                specs.append(s)
     return specs
 
 
@@ -1054,6 +1078,8 @@ def tags(s, res):
             out.append('tensor=False')
         if s.get('scalar'):
             out.append('scalar-form')
+        if s.get('mixed_first'):
+            out.append('rational-volume-mixed:' + s['d'][0])
         idx = _meaning(s['d'], pd)
         if idx is not None:
             out.append('order=%d' % sum(idx))
